@@ -150,8 +150,7 @@ def rule_sites(ctx, rule_id):
     # guarded one is listed for review
     PANICKY = ("drain", "split_off", "remove", "insert", "swap_remove",
                "split_at", "split_at_mut", "copy_from_slice", "clone_from_slice",
-               "swap", "rotate_left", "rotate_right", "splice", "replace_range",
-               "split_first", "chunks", "windows", "step_by")
+               "swap", "rotate_left", "rotate_right", "splice", "replace_range")
     napi = 0
     for f in prog.hand_fns():
         if f.from_expansion:
